@@ -1,3 +1,4 @@
 import pdo_check
 def run(ctx):
     pdo_check.run(ctx, ["C13"])
+VARIANTS = {"default": (), "r4t2": ("CO_RPDO_N=4", "CO_TPDO_N=2"), "r2t4": ("CO_RPDO_N=2", "CO_TPDO_N=4")}
